@@ -35,12 +35,20 @@ CNums    == {"false", "true"} \cup {"#" \o t : t \in
               "u32:0", "u32:max", "u32:big", "i32:min", "i32:-1", "i32:0", "i32:1", "i32:max",
               "u64:0", "u64:max", "u64:big", "i64:min", "i64:-1", "i64:max", "i64:big",
               "f32:0", "f32:-0", "f32:1", "f32:0.1", "f32:max", "f32:lowest", "f32:min", "f32:denorm", "f32:third", "f32:r1", "f32:r2",
-              "f64:0", "f64:-0", "f64:1", "f64:0.1", "f64:max", "f64:lowest", "f64:min", "f64:denorm", "f64:third", "f64:1e22", "f64:pi", "f64:r1", "f64:r2", "f64:big-int"}}
+              "f64:0", "f64:-0", "f64:1", "f64:0.1", "f64:max", "f64:lowest", "f64:min", "f64:denorm", "f64:third", "f64:1e22", "f64:pi", "f64:r1", "f64:r2", "f64:big-int",
+              \* values that need the maximal number of significant digits to be read back exactly
+              \* (9 for float, 17 for double; chosen per seed from different binades and signs), the
+              \* neighbours of "nice" values, and seeded random bit patterns
+              "f32:d9a", "f32:d9b", "f32:d9c", "f32:d9d", "f32:d9e", "f32:d9f", "f32:d9g", "f32:d9h",
+              "f32:1+", "f32:1-", "f32:0.1+", "f32:0.1-", "f32:max-", "f32:min+", "f32:r3", "f32:r4", "f32:r5", "f32:r6",
+              "f64:d17a", "f64:d17b", "f64:d17c", "f64:d17d", "f64:d17e", "f64:d17f", "f64:d17g", "f64:d17h",
+              "f64:1+", "f64:1-", "f64:0.1+", "f64:0.1-", "f64:max-", "f64:min+", "f64:r3", "f64:r4", "f64:r5", "f64:r6"}}
 CKeys    == {<<"LO">>, <<"QUOTE", "n">>}
 CLeafs   == NumVs(CNums)
 \* ---- simulation (thorough): bigger documents, medium pools
 SKeys    == Strs(S9, 1, 1) \cup Special \cup {<<"LO", "HI", "LO">>, <<"n", "u", "n">>}
-SLeafs   == {NullV} \cup NumVs({"true", "false", "#i32:-1", "#u64:max", "#f64:0.1", "#f32:third", "#i64:min"})
+SLeafs   == {NullV} \cup NumVs({"true", "false", "#i32:-1", "#u64:max", "#f64:0.1", "#f32:third", "#i64:min",
+                                  "#f32:d9a", "#f32:d9e", "#f64:d17b", "#f64:d17g", "#f32:r3", "#f64:r3"})
             \cup StrVs(Strs(S9, 0, 1) \cup Special \cup {<<"LO", "HI", "SLASH", "u">>})
 \* ---- every symbol the format treats specially (thorough): \b \t \n \f \r " / \ and the escape letters b f n r t u
 MCSymAll == <<"BS", "TAB", "NL", "FF", "CR", "QUOTE", "LO", "SLASH", "BSLASH", "b", "f", "n", "r", "t", "u", "HI">>
